@@ -108,6 +108,8 @@ type World struct {
 	pendingDescribeLines []string
 
 	noFaults bool // set while the harness itself talks to the seams
+	recordKeys bool
+	callKeys []string // "<group>/<op>#<occ>" of every seam call, in order (single-fault sweep)
 }
 
 func newWorld(ch *Choices, cfg *RunCfg, prof Profile, stats *Stats, keepLog bool) *World {
@@ -237,6 +239,9 @@ func (w *World) drawFault(c *Call) string {
 	if w.noFaults || w.cfg.FaultOnlyGroup != "" && c.Group != w.cfg.FaultOnlyGroup {
 		return FNone
 	}
+	if w.recordKeys {
+		w.callKeys = append(w.callKeys, fmt.Sprintf("%s#%d", key, occ))
+	}
 	fault := FNone
 	if forced, ok := w.cfg.ForceFault[fmt.Sprintf("%s#%d", key, occ)]; ok {
 		fault = forced
@@ -251,6 +256,12 @@ func (w *World) drawFault(c *Call) string {
 		if len(enabled) > 0 {
 			fault = enabled[int(kindIdx%uint32(len(enabled)))]
 		}
+	}
+	if fault == FCrashAfter && !isMutating(c.Op) {
+		fault = FCrashBefore
+	}
+	if (fault == FCrashBefore || fault == FCrashAfter) && w.startup {
+		fault = FNone
 	}
 	if fault == FNone && crash && !w.startup {
 		if crashAfter && isMutating(c.Op) {
